@@ -158,7 +158,8 @@ func round6(w *World, r *Report) {
 		r.Explanation += " R17.14 the users of a shared application entry are counted after the caller's own reference was dropped (a repeated delete cannot take another PDR's port-range entry away); R17.15 a range of exactly 100 ports is still expanded;"
 	case "C18":
 		ruleCommentsAlwaysStripped(w, r, "C18", "R18.9")
-		r.Explanation += " R18.9 every path of removeComments returns the pattern's ReplaceAll of the input;"
+		ruleEveryPeerParsed(w, r, "C18", "R18.10")
+		r.Explanation += " R18.9 every path of removeComments returns the pattern's ReplaceAll of the input; R18.10 the peer parsed in validateConf's loop is the element of the iteration;"
 	case "C19":
 		ruleSliceMeterJoinCount(w, r, "C19", "R19.8")
 		r.Explanation += " R19.8 every caller of addSliceMeter joins as many completions as it starts workers;"
@@ -1190,4 +1191,33 @@ func ruleSliceMeterJoinCount(w *World, r *Report, prop, rule string) {
 		}
 	}
 	r.floor(rule+" joins after addSliceMeter", n, 2)
+}
+
+// ---------------------------------------------------------------------------------------------
+// C18
+
+// ruleEveryPeerParsed: validateConf parses EVERY configured peer: the argument of the address parser inside
+// the loop over conf.CPIface.Peers is the element of the iteration, not a fixed element.
+func ruleEveryPeerParsed(w *World, r *Report, prop, rule string) {
+	f := w.Fn(prop, "pfcpiface.validateConf")
+	n := 0
+	allInstrs(f, func(i ssa.Instruction) {
+		c, ok := i.(*ssa.Call)
+		if !ok || staticCallee(c) == nil || staticCallee(c).Name() != "ParseIP" || len(c.Call.Args) != 1 {
+			return
+		}
+		arg := c.Call.Args[0]
+		u, ok := arg.(*ssa.UnOp)
+		if !ok {
+			return
+		}
+		ia, ok := u.X.(*ssa.IndexAddr)
+		if !ok || !strings.Contains(symOf(ia.X).String(), "Peers") {
+			return
+		}
+		n++
+		_, isK := constInt(ia.Index)
+		r.check(!isK && inCycle(c.Block(), c.Block()), rule, w.FuncName(f), "every configured peer address is parsed", w.Pos(c.Pos()), "Peers[<loop index>]", "the peer parsed inside the loop is "+valueText(ia.Index)+", not the element of the iteration: a configuration whose first peer is valid and a later one is not loads without an error")
+	})
+	r.floor(rule+" peer address parses", n, 1)
 }
